@@ -10,6 +10,22 @@ import Driver.DLc
 import Driver.DScalars
 import Driver.D21
 import Driver.D22
+import Driver.D08
+import Driver.D12
+import Driver.D13
+import Driver.D14
+import Driver.D15
+import Driver.D17
+import Driver.D18
+import Driver.D19
+import Driver.D20
+import Driver.D24
+import Driver.D26
+import Driver.D27
+import Driver.D28
+import Driver.D30
+import Driver.D32
+import Driver.D33
 /-
 `model`: reads one case per line (`stream<TAB>field…`), prints the model's canonical answer.
 Imports model files only (no Mathlib), so it links as a native executable.
@@ -32,6 +48,22 @@ def dispatch (line : String) : String :=
     else if stream ∈ ["scalars"] then cScalars stream fs
     else if stream ∈ ["guard", "sort", "fragcycle"] then c21 stream fs
     else if stream ∈ ["unusedvars"] then c22 stream fs
+    else if stream.startsWith "c08." then c08 stream fs
+    else if stream.startsWith "c12." then c12 stream fs
+    else if stream.startsWith "c13." then c13 stream fs
+    else if stream.startsWith "c14." then c14 stream fs
+    else if stream.startsWith "c15." then c15 stream fs
+    else if stream.startsWith "c17." then c17 stream fs
+    else if stream.startsWith "c18." then c18 stream fs
+    else if stream.startsWith "c19." then c19 stream fs
+    else if stream.startsWith "c20." then c20 stream fs
+    else if stream.startsWith "c24." then c24 stream fs
+    else if stream.startsWith "c26." then c26 stream fs
+    else if stream.startsWith "c27." then c27 stream fs
+    else if stream.startsWith "c28." then c28 stream fs
+    else if stream.startsWith "c30." then c30 stream fs
+    else if stream.startsWith "c32." then c32 stream fs
+    else if stream.startsWith "c33." then c33 stream fs
     else "unknown-stream"
 
 partial def loop (h : IO.FS.Stream) (out : IO.FS.Stream) : IO Unit := do
